@@ -8,7 +8,7 @@ fail=0
 for id in $ids; do
   prop=${id%%-*}
   checks=$prop
-  case $id in C03-w2B|C09-w2C|C12-w2C|C02-w3A|C03-w3C|C07-w3C|C09-w3C|C02-w5A|C03-w5B|C11-w5C) checks="C14";; C10-w3B|C10-w4A|C10-w4B|C10-w5A) checks="C08";; C01-w7A) checks="C02";; C01-w7B|C17-w7B) checks="C13";; C01-w7C) checks="C11";; C02-w7A) checks="C16";; C04-w7A|C17-w7A) checks="C12";; C14-w7C|C17-w7C) echo "SKIPPED $id (not a violation any check can or should see, see meta.json)"; continue;; C14-w7B|C07-w7B) echo "SKIPPED $id (needs two preemptions: found by the thorough tier of C14 only, see meta.json)"; continue;; C01-w4B|C11-w4C) echo "SKIPPED $id (self-consistent data edit: not a violation under the property wording, see meta.json)"; continue;; C14-w6C) echo "SKIPPED $id (needs two preemptions, the first inside a source line: found by the thorough tier only, see meta.json)"; continue;; esac
+  case $id in C03-w2B|C09-w2C|C12-w2C|C02-w3A|C03-w3C|C07-w3C|C09-w3C|C02-w5A|C03-w5B|C11-w5C) checks="C14";; C10-w3B|C10-w4A|C10-w4B|C10-w5A) checks="C08";; C01-w8B) checks="C06";; C15-w8A) checks="C14";; C17-w8A) checks="C18";; C07-w8C) echo "SKIPPED $id (the reference abstains exactly there, see meta.json)"; continue;; C01-w7A) checks="C02";; C01-w7B|C17-w7B) checks="C13";; C01-w7C) checks="C11";; C02-w7A) checks="C16";; C04-w7A|C17-w7A) checks="C12";; C14-w7C|C17-w7C) echo "SKIPPED $id (not a violation any check can or should see, see meta.json)"; continue;; C14-w7B|C07-w7B) echo "SKIPPED $id (needs two preemptions: found by the thorough tier of C14 only, see meta.json)"; continue;; C01-w4B|C11-w4C) echo "SKIPPED $id (self-consistent data edit: not a violation under the property wording, see meta.json)"; continue;; C14-w6C) echo "SKIPPED $id (needs two preemptions, the first inside a source line: found by the thorough tier only, see meta.json)"; continue;; esac
   out=$(tools/try_seeded.sh seeded/$id $checks 2>&1)
   t=$(echo "$out" | grep -c "362 passed")
   d=$(echo "$out" | grep "demo with change" | grep -c "exit 1")
